@@ -176,3 +176,130 @@ def whole_run(rows):
     top = ma.copy()
     top["v0"] = ma["v0"] * 3 + 2
     return {"mpsrc": src, "mprow": row, "mpma": ma, "mpmb": mb, "mptop": top}
+
+
+# ---------------------------------------------------------------- overlap window behind the parallel chain
+class MpWin(strax.OverlapWindowPlugin):
+    """Per row: number of mprow rows starting within +-WINDOW of its start (needs neighbours across chunk borders).
+    OverlapWindowPlugin is stateful and therefore never runs in the pool itself."""
+    provides = "mpwin"
+    depends_on = ("mprow",)
+    dtype = DT
+    data_kind = "mpkw"
+    rechunk_on_save = False
+    WINDOW = 7
+
+    def get_window_size(self):
+        return self.WINDOW
+
+    def compute(self, mpk):
+        r = mpk.copy()
+        t = mpk["time"]
+        r["v0"] = [int(((t >= x - self.WINDOW) & (t <= x + self.WINDOW)).sum()) for x in t]
+        return r
+
+
+def whole_run_win(rows):
+    row = whole_run(rows)["mprow"]
+    r = row.copy()
+    t = row["time"]
+    r["v0"] = [int(((t >= x - MpWin.WINDOW) & (t <= x + MpWin.WINDOW)).sum()) for x in t]
+    return r
+
+
+ALL_WIN = ALL + [MpWin]
+ALL_INLINE_WIN = ALL_INLINE + [MpWin]
+
+
+# ---------------------------------------------------------------- two inputs of different kinds, joined in the pool
+DTB = strax.time_fields + [(("value field v1", "v1"), np.int64)]
+
+
+def mkb(rows):
+    a = np.zeros(len(rows), dtype=DTB)
+    if len(rows):
+        a["time"] = [r[0] for r in rows]
+        a["endtime"] = [r[1] for r in rows]
+        a["v1"] = [r[2] for r in rows]
+    return a
+
+
+def _src(name, kind, dt, maker, opt_rows, opt_cuts):
+    @strax.takes_config(strax.Option(opt_rows, default=(), track=True), strax.Option(opt_cuts, default=(), track=False))
+    class S(strax.Plugin):
+        provides = name
+        depends_on = ()
+        dtype = dt
+        data_kind = kind
+        rechunk_on_save = False
+
+        def source_finished(self):
+            return True
+
+        def is_ready(self, chunk_i):
+            return chunk_i < len(self.config[opt_cuts]) - 1
+
+        def compute(self, chunk_i):
+            cuts = self.config[opt_cuts]
+            a = maker(self.config[opt_rows])
+            lo, hi = cuts[chunk_i], cuts[chunk_i + 1]
+            m = (a["time"] >= lo) & (a["endtime"] <= hi)
+            if lo == hi:
+                m[:] = False
+            return self.chunk(start=lo, end=hi, data=a[m])
+
+    S.__name__ = S.__qualname__ = "MpJ_" + name
+    return S
+
+
+MpJ_mpja = MpJSrcA = _src("mpja", "mpka", DT, mk, "mpj_rows_a", "mpj_cuts_a")
+MpJ_mpjb = MpJSrcB = _src("mpjb", "mpkb", DTB, mkb, "mpj_rows_b", "mpj_cuts_b")
+
+
+class MpJoin(strax.Plugin):
+    """Saved by default, runs in the pool, two inputs of different kinds with independent chunkings: rows of mpja
+    with the number of mpjb rows fully inside the interval handed to this call."""
+    provides = "mpjoin"
+    depends_on = ("mpja", "mpjb")
+    dtype = DT
+    data_kind = "mpka"
+    parallel = "process"
+    rechunk_on_save = False
+
+    def compute(self, mpka, mpkb):
+        r = mpka.copy()
+        r["v0"] = mpka["v0"] * 100 + len(mpkb)
+        return r
+
+
+class MpJDown(strax.Plugin):
+    provides = "mpjdown"
+    depends_on = ("mpjoin",)
+    dtype = DT
+    data_kind = "mpka"
+    parallel = True
+    rechunk_on_save = False
+
+    def compute(self, mpka):
+        r = mpka.copy()
+        r["v0"] = mpka["v0"] + 1
+        return r
+
+
+JOIN = [MpJSrcA, MpJSrcB, MpJoin, MpJDown]
+
+
+# ---------------------------------------------------------------- inlining that starts at a plugin WITH a dependency
+class MpMultiT(MpMulti):
+    """Thread-parallel: inlined behind a process-parallel plugin, but never the plugin the inlining starts from."""
+    parallel = True
+
+
+class MpTopT(MpTop):
+    parallel = True
+
+
+# source outside the pool, mprow (one dependency, data kind 'mpk' != data type 'mpsrc') is the only
+# parallel='process' plugin -> strax inlines mprow + mpmulti + mptop and their savers starting from mprow
+ALL_ROWSTART = [MpSrc, MpRow, MpMultiT, MpTopT]
+ALL_ROWSTART_WIN = ALL_ROWSTART + [MpWin]
